@@ -331,3 +331,157 @@ def term_matches(term, want):
 def mirror_term_accepts(want, text):
     ok, terms = mirror_term(text)
     return bool(ok and len(terms) == 1 and term_matches(terms[0], want))
+
+
+# ------------------------------------------------------------------ C29: Python values for the shapes of CqlTerm.tla
+
+class MyStr(str):
+    pass
+
+
+class MyBytes(bytes):
+    pass
+
+
+class MyInt(int):
+    pass
+
+
+class MyFloat(float):
+    pass
+
+
+class MyList(list):
+    pass
+
+
+class MySet(set):
+    pass
+
+
+class MyDict(dict):
+    pass
+
+
+SUBCLASS_BASE = {"MyStr": "str", "MyBytes": "bytes", "MyInt": "int", "MyFloat": "float", "MyUUID": "uuid",
+                 "MyList": "list", "namedtuple": "tuple", "MySet": "set", "MyDict": "dict"}
+
+_NT = {}
+
+
+def _namedtuple(n):
+    import collections
+    if n not in _NT:
+        _NT[n] = collections.namedtuple("NT%d" % n, ["f%d" % i for i in range(n)])
+        _NT[n].__module__ = __name__
+        globals()["NT%d" % n] = _NT[n]          # resolvable by pickle (cassandra.util.OrderedMap pickles its keys)
+    return _NT[n]
+
+
+def _variants():
+    import datetime
+    import ipaddress
+    from harness.pyenv import repo_import
+    util = repo_import("cassandra.util")
+    return {
+        "datetime": (datetime.datetime(2020, 1, 2, 3, 4, 5, 678000), datetime.datetime(1969, 12, 31, 23, 59, 59, 1000)),
+        "date": (datetime.date(2020, 1, 2), datetime.date(1, 1, 1)),
+        "time": (datetime.time(3, 4, 5, 678), datetime.time(0, 0)),
+        "Date": (util.Date(0), util.Date(-1)),
+        "Time": (util.Time(0), util.Time(86399999999999)),
+        "inet4": (ipaddress.IPv4Address("1.2.3.4"), ipaddress.IPv4Address("0.0.0.0")),
+        "inet6": (ipaddress.IPv6Address("::1"), ipaddress.IPv6Address("fe80::1")),
+    }
+
+
+def instantiate(shape, base=False):
+    """Shape (dict tag / p / kids as enumerated by TLC) -> a fresh Python value.
+    base=True replaces every user subclass by the type it derives from (used only to classify a failure)."""
+    import decimal
+    import uuid
+    from harness.pyenv import repo_import
+    tag, p, kids = shape["tag"], shape["p"], shape["kids"]
+    if base:
+        tag = SUBCLASS_BASE.get(tag, tag)
+    text = chars_to_str(p)
+    if tag == "str":
+        return text
+    if tag == "MyStr":
+        return MyStr(text)
+    if tag == "bytes":
+        return bytes.fromhex(text)
+    if tag == "bytearray":
+        return bytearray(bytes.fromhex(text))
+    if tag == "memoryview":
+        return memoryview(bytes.fromhex(text))
+    if tag == "MyBytes":
+        return MyBytes(bytes.fromhex(text))
+    if tag == "int":
+        return int(text)
+    if tag == "MyInt":
+        return MyInt(text)
+    if tag == "bool":
+        return {"true": True, "false": False}[text]
+    if tag == "float":
+        return float(text)
+    if tag == "MyFloat":
+        return MyFloat(text)
+    if tag == "Decimal":
+        return decimal.Decimal(text)
+    if tag == "uuid":
+        return uuid.UUID(text)
+    if tag == "MyUUID":
+        return type("MyUUID", (uuid.UUID,), {})(text)
+    if tag == "none":
+        return None
+    v = _variants()
+    if tag in v:
+        return v[tag][int(text) - 1]
+    vals = [instantiate(k, base) for k in kids]
+    if tag == "list":
+        return vals
+    if tag == "tuple":
+        return tuple(vals)
+    if tag == "MyList":
+        return MyList(vals)
+    if tag == "namedtuple":
+        return _namedtuple(len(vals))(*vals)
+    if tag == "generator":
+        return (x for x in vals)
+    if tag == "valueseq":
+        return repo_import("cassandra.encoder").ValueSequence(vals)
+    if tag == "set":
+        return set(vals)
+    if tag == "frozenset":
+        return frozenset(vals)
+    if tag == "sortedset":
+        return repo_import("cassandra.util").sortedset(vals)
+    if tag == "MySet":
+        return MySet(vals)
+    pairs = [(vals[i], vals[i + 1]) for i in range(0, len(vals), 2)]
+    if tag == "dict":
+        return dict(pairs)
+    if tag == "MyDict":
+        return MyDict(pairs)
+    if tag == "OrderedDict":
+        import collections
+        return collections.OrderedDict(pairs)
+    if tag == "OrderedMap":
+        return repo_import("cassandra.util").OrderedMap(pairs)
+    raise ValueError("unknown shape tag %r" % tag)
+
+
+def want_json(w):
+    """Expect(shape) as enumerated by TLC -> JSON image with the real code points."""
+    k, v = str(w["k"]), w["v"]
+    if k in ("str", "int", "hex", "uuid", "bool"):
+        return {"k": k, "v": [PLACEHOLDER.get(c, c) for c in v]}
+    if k in ("list", "tuple", "set"):
+        return {"k": k, "v": [want_json(x) for x in v]}
+    if k == "map":
+        return {"k": k, "v": [[want_json(x[0]), want_json(x[1])] for x in v]}
+    return {"k": k, "v": []}
+
+
+def has_subclass(shape):
+    return shape["tag"] in SUBCLASS_BASE or any(has_subclass(k) for k in shape["kids"])
